@@ -87,6 +87,8 @@ pub fn bitmap(cex: &Value) -> Result<String, String> {
                 break;
               }
             }
+            // re-synchronise, so that a deviation is attributed to the step that caused it only
+            model = (0..120u32).filter(|i| b.is_revoked(*i)).collect();
           }
           (r, b) => log.push(format!("[iota-wrapper] {} {idx:?} failed: {:?} / bitmap readable: {}", if revoke { "revoke" } else { "unrevoke" }, r.err().map(|e| e.to_string()), b.is_ok())),
         }
